@@ -96,6 +96,11 @@ Definition push_arts (arts : list artifact) (c remote : cache) : res cache :=
   | Ok files => remote_copy files c remote
   end.
 
+(* the key under which Fetch merges the children of one level: the checksum, plus a marker for
+   directories (repaired tree: a file whose bytes are a directory's manifest has that directory's
+   checksum and must not shadow it) *)
+Definition child_key (a : artifact) : bytes := if a_isdir a then a_cs a ++ [47] else a_cs a.
+
 (* LocalCache.Fetch: missing objects first, then the children of every directory artifact
    (read from the local cache after the transfer), keyed by checksum *)
 Fixpoint fetch_arts (fuel : nat) (arts : list artifact) (c remote : cache) : res cache :=
@@ -122,7 +127,7 @@ Fixpoint fetch_arts (fuel : nat) (arts : list artifact) (c remote : cache) : res
             | Some o =>
               match dec_manifest (o_data o) with
               | None => Err
-              | Some m => kids r (fold_left (fun acc kv => ins_sorted (a_cs (snd kv)) (snd kv) acc) (m_contents m) acc)
+              | Some m => kids r (fold_left (fun acc kv => ins_sorted (child_key (snd kv)) (snd kv) acc) (m_contents m) acc)
               end
             end
           end in
